@@ -190,7 +190,7 @@ class Panoptica_Evaluator(SupportsConfig):
         save_group_times: bool = False,
     ):
         assert isinstance(label_group, LabelGroup)
-        if self.__save_group_times:
+        if save_group_times:
             start_time = perf_counter()
 
         prediction_arr_grouped = label_group(processing_pair.prediction_arr)
